@@ -326,12 +326,25 @@ def go_history(ctx, eid):
             name, mk = rng.choice([('IndexHierarchy(go)', lambda: sf.IndexHierarchy(ih)), ('IndexHierarchyGO(go)', lambda: sf.IndexHierarchyGO(ih)),
                                    ('rename', lambda: ih.rename('r')), ('copy', lambda: ih.copy()), ('to_static_via_series', lambda: sf.Series(list(range(len(rows))), index=ih).index),
                                    ('frame_columns', lambda: sf.Frame.from_records([list(range(len(rows)))], columns=ih).columns)])
+            d_rows, d_absent = list(rows), absent
+            if rng.random() < 0.45:
+                # derivations that change the labels in a stated way (a new outer level, the sorted order, the per-depth arrays put together again)
+                zed = ['s', 'Z']
+                key = lambda r: [P.dec(x) for x in r]
+                name, mk, d_rows, d_absent = rng.choice([
+                    ('level_add', lambda: ih.level_add('Z'), [[zed] + list(r) for r in rows], [[zed] + list(a) for a in absent if len(a) == len(rows[0])]),
+                    ('sort', lambda: ih.sort(), sorted(rows, key=key), absent),
+                    ('sort_descending', lambda: ih.sort(ascending=False), sorted(rows, key=key, reverse=True), absent),
+                    ('values_at_depth', lambda: sf.IndexHierarchy.from_labels(list(zip(*[ih.values_at_depth(k).tolist() for k in range(len(rows[0]))]))) if ALPH[3][0] not in [r[-1] for r in rows] and len(rows[0]) < 4
+                        else sf.IndexHierarchy(ih), list(rows), absent),
+                    ('series_sort_index', lambda: sf.Series(list(range(len(rows))), index=ih).sort_index().index, sorted(rows, key=key), absent),
+                ])
             try:
                 d = mk()
-                obs = observe(d, rows, absent)
+                obs = observe(d, d_rows, d_absent)
             except Exception as e:
                 obs = {'k': 'err', 'cat': P.err_category(e), 'msg': str(e)[:80]}
-            events.append({'id': eid + len(events), 'kind': 'views', 'rows': list(rows), 'absent': absent, 'obs': obs, 'route': 'go:derived_' + name})
+            events.append({'id': eid + len(events), 'kind': 'views', 'rows': list(d_rows), 'absent': d_absent, 'obs': obs, 'route': 'go:derived_' + name})
         events.append({'id': eid + len(events), 'kind': 'views', 'rows': list(rows), 'absent': absent, 'obs': observe(ih, rows, absent), 'route': 'go:after_' + act['name']})
     return events
 
